@@ -76,6 +76,18 @@ impl VisitMut for BlockTransformVisitor<'_> {
         expr.visit_mut_children_with(self);
     }
 
+    // identifiers that are never seen by the operation visitor of a block (parameters of a top level
+    // function or of an arrow function...) can clash with the injected variables too
+    fn visit_mut_ident(&mut self, ident: &mut Ident) {
+        if ident.span != DUMMY_SP
+            && ident
+                .sym
+                .starts_with(&get_dd_local_variable_prefix(&self.config.local_var_prefix))
+        {
+            self.cancel_visit("Variable name duplicated");
+        }
+    }
+
     fn visit_mut_program(&mut self, node: &mut Program) {
         node.visit_mut_children_with(self);
 
